@@ -722,3 +722,12 @@ _instances_base = instances
 def instances(tier):       # noqa: F811
     from . import loopinv
     return _instances_base(tier) + loopinv.all_instances('C08', tier)
+
+
+_inst_before_spline = instances
+
+
+def instances(tier):       # noqa: F811
+    from .common import watson_spline_bounded_instance
+    from .common import bingham_trainer_bounded_instance
+    return _inst_before_spline(tier) + [watson_spline_bounded_instance('C08'), bingham_trainer_bounded_instance('C08')]
